@@ -297,6 +297,8 @@ class Interp:
             name = SX.short(SX.callee(e))
             if name in self.models:
                 return self.models[name](self, e, env)
+            if k == 'mcall' and name in ('operator bool', 'has_value') and not SX.real_args(e):
+                return self.expr(e['obj'], env) is not None
             if k == 'mcall':
                 r = self.container_call(e, name, env)
                 if r is not _NOPE:
